@@ -630,7 +630,7 @@ pub fn cmd_check(prop: &str, tier: &str) -> i32 {
     }
     // second engine
     let mut miri_stats: Option<Value> = None;
-    if (prop == "C07" || prop == "C04") && std::env::var("VERIF_NO_MIRI").is_err() {
+    if matches!(prop, "C07" | "C04" | "C05" | "C13" | "C15") && std::env::var("VERIF_NO_MIRI").is_err() {
         let (mv, ms, merr) = crate::miri::stage(prop, &tier, seed);
         vios.extend(mv);
         miri_stats = Some(ms);
